@@ -11,10 +11,13 @@ def add(pid, cat, technique, text, note):
     CHECKS[pid] = dict(cat=cat, technique=technique, text=text, note=note)
 
 add('C17', 'exploration',
-    'runtime monitoring: exception-type oracle on receive_data under structural + byte-mutation hostile-peer fuzzing',
+    'runtime monitoring: exception-type oracle on receive_data under structural + byte-mutation hostile-peer fuzzing, plus a coverage-guided layer driven by sys.monitoring LINE events over h2/hpack/hyperframe',
     'Held/violated on the generated executions only: hostile peer traffic (mutated frame fields, arbitrary HPACK, '
     'CONTINUATION chains, byte mutation) in random chunkings for both roles and all inbound configurations; evidence '
-    'lists every (exception type, raising function) pair and event type observed.',
+    'lists every (exception type, raising function) pair and event type observed. A coverage-guided layer (48 cases x 300 executions '
+    'quick, 960 x 2500 thorough) evolves a corpus per case by byte mutation, insertion of freshly built odd frames and splicing, keeping '
+    'inputs that reach library lines no earlier input of the case reached (sys.monitoring with DISABLE; re-armed per case so replays are '
+    'deterministic); the evidence lists executions, inputs kept and lines reached.',
     'Trusts CPython, hpack, hyperframe; inputs limited to what the generators reach.')
 
 add('C18', 'fault_enumeration',
